@@ -158,7 +158,7 @@ def h_transparent(t, part):
     n = part['n']
     plan = []
     for k in range(n):
-        op = t.choice(7)
+        op = t.choice(8)
         plan.append((op, t.choice(2), t.int(-2, 2)))
 
     def run(instrumented):
@@ -195,13 +195,25 @@ def h_transparent(t, part):
             names[sid] = 'sid-%s' % e
             live[e] = sid
         cbs = []
+        ever = dict(live)
+
+        def api(thunk):
+            try:
+                w.call(thunk())
+            except Exception as ex:
+                log.append(('api-raised', type(ex).__name__, ()))
         for op, who, x in plan:
             e = es[who]
             sid = live[e]
             if op == 0 and sid:
-                w.call(w.s.enter_room(sid, 'room'))
-            elif op == 1 and sid:
-                w.call(w.s.leave_room(sid, 'room'))
+                api(lambda: w.s.enter_room(sid, 'room'))
+            elif op == 1:
+                api(lambda: w.s.leave_room(ever[e], 'room'))       # also for a client that has gone
+            elif op == 7:
+                for e2 in es:                                           # the namespace empties
+                    if live[e2]:
+                        w.send(e2, w.P(packet.DISCONNECT))
+                        live[e2] = None
             elif op == 2:
                 w.call(w.s.emit('news', (x, 'y'), room='room', skip_sid=live['e0'] if who else None))
             elif op == 3 and sid:
@@ -216,7 +228,7 @@ def h_transparent(t, part):
                 w.send(e, w.P(packet.DISCONNECT))
                 live[e] = None
             elif op == 6:
-                w.call(w.s.close_room('room'))
+                api(lambda: w.s.close_room('room'))
         w.finish()
         view = {}
         for e in es:
@@ -269,9 +281,9 @@ def tr_parts(tier):
 
 
 CHECKS = [
-    dict(name='gate', fn=h_gate, parts=gate_parts, budget={'quick': 60, 'thorough': 300}),
-    dict(name='read-only', fn=h_readonly, parts=ro_parts, budget={'quick': 60, 'thorough': 300}),
-    dict(name='transparency', fn=h_transparent, parts=tr_parts, budget={'quick': 80, 'thorough': 900}),
+    dict(name='gate', fn=h_gate, parts=gate_parts, budget={'quick': 180, 'thorough': 300}),
+    dict(name='read-only', fn=h_readonly, parts=ro_parts, budget={'quick': 180, 'thorough': 300}),
+    dict(name='transparency', fn=h_transparent, parts=tr_parts, budget={'quick': 180, 'thorough': 900}),
 ]
 
 META = dict(
@@ -284,7 +296,7 @@ META = dict(
                 'calls, callback firings and rooms are compared.',
     bounds={'quick': 'gate: 12 payload shapes x 5 configurations (x 4x3 predicate answer values); read-only: 4 requests x 4 '
                      'targets x modes; transparency: 2 application operations from {enter, leave, emit to room with '
-                     'skip_sid, emit with callback + ACK, client event with/without ack, DISCONNECT, close_room}, admin '
+                     'skip_sid, emit with callback + ACK, client event with/without ack, DISCONNECT, close_room, every client leaving}, admin '
                      'connected or not, development and production/read-only',
             'thorough': 'gate in all four mode combinations; transparency with 3 operations'},
     outside=['the periodic server_stats task (timer driven; never scheduled by the stub)', 'engine.io level counters '
